@@ -258,6 +258,10 @@ func runShutdownSchedule(acts []string) (obs string, viol []string) {
 			serve = "nil"
 		} else {
 			serve = "err"
+			if r.sdCalled {
+				// the schedules contain no Accept failure of their own: the only one is the listener's answer to Shutdown closing it
+				viol = append(viol, "Serve returned an error instead of nil after Shutdown closed the listener: "+e.Error())
+			}
 		}
 		r.serveRet <- e
 	default:
@@ -274,7 +278,10 @@ func runShutdownSchedule(acts []string) (obs string, viol []string) {
 		r.callShutdown()
 	}
 	select {
-	case <-r.serveRet:
+	case e := <-r.serveRet:
+		if e != nil && serve != "err" {
+			viol = append(viol, "Serve returned an error instead of nil after Shutdown closed the listener: "+e.Error())
+		}
 	case <-time.After(5 * time.Second):
 		viol = append(viol, "Serve did not return after Shutdown")
 	}
